@@ -300,6 +300,19 @@ def fam_enums(quick):
                 vs = [Variant("UnitV", "unit"), shapes["struct2"]("TwoFields"), target]
                 out.append(one({"family": "enum-variant-attr", "repr": rp, "shape": s, "variant_attr": vlabel},
                                TypeDef("E", "enum", variants=vs, attrs=list(rattr))))
+        # variant-level `type` / `as` overrides that agree with what serde writes for the payload
+        for vlabel, vattr, payload in (("type-override", ['#[ts(type = "number")]'], "i32"), ("as", ['#[ts(as = "i32")]'], "i32"),
+                                       ("type-override-object", ['#[ts(type = "{ a: number, b_c: string, }")]'], "St"), ("as-object", ['#[ts(as = "St")]'], "St")):
+            if rp == "internal" and payload == "i32":
+                continue
+            tv = Variant("Target", "tuple", [Field(payload)], list(vattr))
+            for vs in ([Variant("UnitV", "unit"), shapes["struct2"]("TwoFields"), tv], [tv, Variant("UnitV", "unit")], [shapes["newtype"]("NewV"), tv]):
+                out.append(one({"family": "enum-variant-attr", "repr": rp, "shape": "newtype", "variant_attr": vlabel, "n": len(vs)},
+                               TypeDef("E", "enum", variants=list(vs), attrs=list(rattr))))
+            if rp != "untagged":
+                tu = Variant("Target", "tuple", [Field(payload)], list(vattr) + ["#[serde(untagged)]"])
+                out.append(one({"family": "enum-variant-attr", "repr": rp, "shape": "newtype", "variant_attr": vlabel + "+untagged"},
+                               TypeDef("E", "enum", variants=[Variant("UnitV", "unit"), shapes["struct2"]("TwoFields"), tu], attrs=list(rattr))))
         # payload-field attributes
         for flabel, fattr, fty, skipped in (("skip", ["#[serde(skip)]"], "i32", True), ("inline", ["#[ts(inline)]"], "St", False),
                                             ("rename", ['#[serde(rename = "re-named")]'], "i32", False), ("flatten", ["#[serde(flatten)]"], "St", False),
